@@ -14,3 +14,15 @@ Proof.
   - pose proof (E_1 (Z.to_nat s)) as H. unfold E in H. change (Z.of_nat 1) with 1 in H. rewrite Z2Nat.id in H by lia. rewrite H. reflexivity.
 Qed.
 Print Assumptions osb_is_TC.
+
+(* ... and so does the model of the helper the extracted driver evaluates and the correspondence compares with the implementation
+   (Binomial.optimal_steps_binomial: cache_step with the dictionary explicit, started empty) *)
+Require Binomial HelperCoh.
+Theorem model_osb_is_TC (tr : traj) (n s : Z) : 1 <= n -> (1 <= s \/ n = 1 /\ 0 <= s) ->
+  Binomial.optimal_steps_binomial n s = Actions.Ok (Inst.TC tr n s).
+Proof.
+  intros Hn Hs. rewrite (HelperCoh.optimal_steps_binomial_value n s Hn ltac:(lia)).
+  pose proof (osb_is_TC tr (Z.to_nat n) n s Hn Hs ltac:(lia)) as H. rewrite (osb_value (Z.to_nat n) n s Hn ltac:(lia) ltac:(lia)) in H.
+  injection H as H. rewrite H. reflexivity.
+Qed.
+Print Assumptions model_osb_is_TC.
